@@ -18,9 +18,15 @@
 // again, resets, or waits for another goroutine reading <M>Calls(); the outer call must return
 // (watchdog: "deadlock") and the nested read must already contain the running call.
 //
-// Testify mocks: On(<method>, mock.Anything...).Return(<tokens>) for every method, then G
-// goroutines call the methods concurrently (plus goroutines adding expectations through the
-// expecter) and check the returned values; the number of recorded calls must match.
+// Testify mocks: every method gets ONE expectation, registered through the generated expecter with a
+// typed handler - <Mock>_<M>_Call.Run(fn).Return(tokens) or .RunAndReturn(fn), alternating - or, when
+// that handler already misbehaves in a single-threaded probe on a mock of its own (C03's subject:
+// rolled variadics / nil arguments in the unfixed Run wrapper), a plain On(..).Return(..).  Then G
+// goroutines call the methods concurrently with unique per-call argument tuples (2 variadic
+// arguments, never nil); the handler checks that it received exactly the tuple of ONE actual call,
+// RunAndReturn handlers answer with results derived from that call's id and the caller checks it
+// got its own; handlers must have run once per call; goroutines keep adding expectations through
+// the expecter meanwhile.
 //
 // stdin : JSON [{"mock":"p0.MoqI0","kind":"matryer","goroutines":8,"calls":150,"readers":2,"seed":1,"stub":false}]
 // stdout: JSON [{"mock":..,"calls":n,"records":n,"snapshots":n,"errors":[..]}]
@@ -254,6 +260,7 @@ type Job struct {
 	Readers    int    `json:"readers"`
 	Seed       int    `json:"seed"`
 	Stub       bool   `json:"stub"`
+	Unroll     bool   `json:"unroll"` // testify: the package was generated with unroll-variadic: true
 }
 type Result struct {
 	Mock      string   `json:"mock"`
@@ -261,6 +268,8 @@ type Result struct {
 	Records   int      `json:"records"`
 	Snapshots int      `json:"snapshots"`
 	Resets    int      `json:"resets"`
+	Typed     int      `json:"typed_handlers"`  // testify methods exercised through a typed Run / RunAndReturn handler
+	Skipped   []string `json:"typed_skipped"`   // ... not exercised: the handler already misbehaves single-threaded (C03's subject)
 	Errors    []string `json:"errors"`
 }
 
@@ -284,7 +293,22 @@ type meth struct {
 	caps     []int
 	wide     int // index of the parameter carrying the uid, -1 if none
 	variadic bool
-	ran      int64 // invocations of <M>Func
+	ran      int64 // invocations of <M>Func / of the typed testify handler
+	nonzero  bool  // never use token 0 (nil): typed testify Run wrappers assert args[i].(T) (C03's nil finding)
+	fixedVar int   // number of variadic arguments of every call (0 = uid % 3)
+	calls    int64
+	rets     []int
+	kind     int // testify: 0 plain On/Return, 1 expecter Run+Return, 2 expecter RunAndReturn
+}
+
+func (m *meth) tok(v, c int) int {
+	if m.nonzero {
+		if c <= 0 {
+			return 0
+		}
+		return 1 + v%c
+	}
+	return v % (c + 1)
 }
 
 func methodsOf(mock reflect.Value) []*meth {
@@ -326,12 +350,15 @@ func (m *meth) tuple(uid int) []any {
 	for j := 0; j < n; j++ {
 		if m.variadic && j == n-1 {
 			k := uid % 3
+			if m.fixedVar > 0 {
+				k = m.fixedVar
+			}
 			if k == 0 {
 				out[j] = []int(nil)
 			} else {
 				el := make([]int, k)
 				for x := range el {
-					el[x] = (uid + x) % (m.caps[j] + 1)
+					el[x] = m.tok(uid+x, m.caps[j])
 				}
 				out[j] = el
 			}
@@ -340,7 +367,7 @@ func (m *meth) tuple(uid int) []any {
 		if j == m.wide {
 			out[j] = uid
 		} else {
-			out[j] = (uid * (j + 3)) % (m.caps[j] + 1)
+			out[j] = m.tok(uid*(j+3), m.caps[j])
 		}
 	}
 	return out
@@ -702,16 +729,113 @@ func probeReentrancy(job Job, mk func() any, res *Result, E *errs) bool {
 }
 
 // ---------------------------------------------------------------- testify
-func stressTestify(job Job, mk func() any, res *Result, E *errs) {
-	obj := mk()
-	mock := reflect.ValueOf(obj)
-	base := mock.Elem().FieldByName("Mock").Addr().Interface().(*tmock.Mock)
-	type tm struct {
-		name string
-		typ  reflect.Type
-		rets []int
+func newTestifyMeth(mock reflect.Value, i int) *meth {
+	mt := mock.Method(i).Type()
+	m := &meth{name: mock.Type().Method(i).Name, typ: mt, wide: -1, variadic: mt.IsVariadic(), nonzero: true, fixedVar: 2}
+	n := mt.NumIn()
+	for j := 0; j < n; j++ {
+		t := mt.In(j)
+		if m.variadic && j == n-1 {
+			m.caps = append(m.caps, capacity(t.Elem()))
+			continue
+		}
+		c := capacity(t)
+		m.caps = append(m.caps, c)
+		if m.wide < 0 && c >= big {
+			m.wide = j
+		}
 	}
-	var ms []*tm
+	return m
+}
+
+// register one expectation for m on mock: plain (kind 0) or through the generated expecter with a typed
+// handler that checks it received exactly the argument tuple of one actual call
+func registerTestify(job Job, mock reflect.Value, m *meth, kind int, maxUID int, E *errs, where string) {
+	base := mock.Elem().FieldByName("Mock").Addr().Interface().(*tmock.Mock)
+	mt := m.typ
+	nfix := mt.NumIn()
+	nvar := 0
+	if m.variadic {
+		nfix--
+		nvar = 1
+		if job.Unroll {
+			nvar = m.fixedVar
+		}
+	}
+	vals := make([]reflect.Value, mt.NumOut())
+	ivals := make([]any, mt.NumOut())
+	for j := range vals {
+		vals[j] = enc(mt.Out(j), m.rets[j])
+		ivals[j] = vals[j].Interface()
+	}
+	if kind == 0 {
+		anys := make([]any, nfix+nvar)
+		for j := range anys {
+			anys[j] = tmock.Anything
+		}
+		base.On(m.name, anys...).Return(ivals...)
+		return
+	}
+	e := mock.MethodByName("EXPECT").Call(nil)[0].MethodByName(m.name)
+	anys := make([]reflect.Value, nfix+nvar)
+	for j := range anys {
+		anys[j] = reflect.ValueOf(tmock.Anything)
+	}
+	c := e.Call(anys)[0]
+	check := func(a []reflect.Value) int {
+		atomic.AddInt64(&m.ran, 1)
+		got := decodeVals(m, a)
+		if m.wide < 0 {
+			return 0
+		}
+		uid, _ := got[m.wide].(int)
+		if uid <= 0 || uid >= maxUID || !sameTuple(got, m.tuple(uid)) {
+			E.add("%s %s: the typed handler of %s received %v, which is not the argument tuple of any single call", job.Mock, where, m.name, got)
+		}
+		return uid
+	}
+	if kind == 1 {
+		run := c.MethodByName("Run")
+		ft := run.Type().In(0)
+		c = run.Call([]reflect.Value{reflect.MakeFunc(ft, func(a []reflect.Value) []reflect.Value { check(a); return nil })})[0]
+		c.MethodByName("Return").Call(vals)
+		return
+	}
+	rr := c.MethodByName("RunAndReturn")
+	ft := rr.Type().In(0)
+	rr.Call([]reflect.Value{reflect.MakeFunc(ft, func(a []reflect.Value) []reflect.Value {
+		uid := check(a)
+		outs := make([]reflect.Value, ft.NumOut())
+		for j := range outs {
+			outs[j] = enc(ft.Out(j), m.expectRet(uid, j))
+		}
+		return outs
+	})})
+}
+
+// what a call with this uid must return
+func (m *meth) expectRet(uid, j int) int {
+	if m.kind == 2 && m.wide >= 0 {
+		c := capacity(m.typ.Out(j))
+		if c <= 0 {
+			return 0
+		}
+		return 1 + (uid+j)%min(c, 1000)
+	}
+	return m.rets[j]
+}
+
+func callTestify(mock reflect.Value, m *meth, uid int) (rets []reflect.Value, perr any) {
+	defer func() { perr = recover() }()
+	return mock.MethodByName(m.name).Call(m.args(uid)), nil
+}
+
+func stressTestify(job Job, mk func() any, res *Result, E *errs) {
+	mock := reflect.ValueOf(mk())
+	base := mock.Elem().FieldByName("Mock").Addr().Interface().(*tmock.Mock)
+	hasExpecter := mock.MethodByName("EXPECT").IsValid()
+	maxUID := job.Goroutines*job.Calls + 10
+	var ms []*meth
 	t := mock.Type()
 	for i := 0; i < t.NumMethod(); i++ {
 		name := t.Method(i).Name
@@ -721,22 +845,40 @@ func stressTestify(job Job, mk func() any, res *Result, E *errs) {
 		if _, promoted := reflect.TypeOf(base).MethodByName(name); promoted {
 			continue // methods of the embedded mock.Mock
 		}
-		mt := mock.Method(i).Type()
-		m := &tm{name: name, typ: mt}
-		anys := make([]any, mt.NumIn())
-		for j := range anys {
-			anys[j] = tmock.Anything
-		}
-		vals := make([]any, mt.NumOut())
-		for j := range vals {
-			tok := (job.Seed+i+j)%(min(capacity(mt.Out(j)), 50)) + 1
-			if capacity(mt.Out(j)) == 0 {
-				tok = 0
+		m := newTestifyMeth(mock, i)
+		for j := 0; j < m.typ.NumOut(); j++ {
+			c := capacity(m.typ.Out(j))
+			tok := 0
+			if c > 0 {
+				tok = 1 + (job.Seed+i+j)%min(c, 50)
 			}
 			m.rets = append(m.rets, tok)
-			vals[j] = enc(mt.Out(j), tok).Interface()
 		}
-		base.On(name, anys...).Return(vals...)
+		m.kind = 0
+		if hasExpecter {
+			m.kind = 1 + (job.Seed+i)%2
+			// single-threaded probe on a mock of its own: a typed handler that already fails sequentially is C03's
+			// subject (unfixed: variadic Run with rolled variadics, nil arguments), not a concurrency finding
+			pm := reflect.ValueOf(mk())
+			pe := &errs{}
+			probe := *m
+			registerTestify(job, pm, &probe, m.kind, maxUID, pe, "probe")
+			uid := maxUID - 1
+			rets, perr := callTestify(pm, &probe, uid)
+			okp := perr == nil && len(pe.l) == 0 && probe.ran == 1
+			for j, r := range rets {
+				if dec(r) != probe.expectRet(uid, j) {
+					okp = false
+				}
+			}
+			if !okp {
+				res.Skipped = append(res.Skipped, fmt.Sprintf("%s.%s(kind %d, variadic %v, unroll %v)", job.Mock, m.name, m.kind, m.variadic, job.Unroll))
+				m.kind = 0
+			} else {
+				res.Typed++
+			}
+		}
+		registerTestify(job, mock, m, m.kind, maxUID, E, "stress")
 		ms = append(ms, m)
 	}
 	if len(ms) == 0 {
@@ -748,36 +890,26 @@ func stressTestify(job Job, mk func() any, res *Result, E *errs) {
 		wg.Add(1)
 		go func(g int) {
 			defer wg.Done()
-			defer func() {
-				if r := recover(); r != nil {
-					E.add("%s: panic in goroutine %d: %v", job.Mock, g, r)
-				}
-			}()
 			for k := 0; k < job.Calls; k++ {
 				uid := 1 + g*job.Calls + k
 				m := ms[(uid*7+job.Seed)%len(ms)]
-				n := m.typ.NumIn()
-				var args []reflect.Value
-				for j := 0; j < n; j++ {
-					if m.typ.IsVariadic() && j == n-1 {
-						et := m.typ.In(j).Elem()
-						args = append(args, enc(et, uid%(min(capacity(et), 1000)+1)))
-						continue
-					}
-					args = append(args, enc(m.typ.In(j), uid%(min(capacity(m.typ.In(j)), 1000)+1)))
-				}
-				rets := mock.MethodByName(m.name).Call(args)
+				rets, perr := callTestify(mock, m, uid)
 				atomic.AddInt64(&calls, 1)
+				atomic.AddInt64(&m.calls, 1)
+				if perr != nil {
+					E.add("%s: panic in %s (goroutine %d): %v", job.Mock, m.name, g, perr)
+					continue
+				}
 				for j, r := range rets {
-					if dec(r) != m.rets[j] {
-						E.add("%s: %s returned %d for result %d, expectation says %d", job.Mock, m.name, dec(r), j, m.rets[j])
+					if dec(r) != m.expectRet(uid, j) {
+						E.add("%s: %s(uid %d) returned %d for result %d, its handler/expectation says %d", job.Mock, m.name, uid, dec(r), j, m.expectRet(uid, j))
 					}
 				}
 			}
 		}(g)
 	}
-	// expectations added through the generated expecter while calls are running
-	if ex := mock.MethodByName("EXPECT"); ex.IsValid() {
+	// expectations added through the generated expecter while calls are running (never matched: the first one wins)
+	if hasExpecter {
 		for g := 0; g < 2; g++ {
 			wg.Add(1)
 			go func(g int) {
@@ -789,27 +921,9 @@ func stressTestify(job Job, mk func() any, res *Result, E *errs) {
 				}()
 				for k := 0; k < 20; k++ {
 					m := ms[(k+g)%len(ms)]
-					e := ex.Call(nil)[0].MethodByName(m.name)
-					if !e.IsValid() {
-						continue
-					}
-					var anys []reflect.Value
-					for j := 0; j < e.Type().NumIn(); j++ {
-						anys = append(anys, reflect.ValueOf(tmock.Anything))
-					}
-					var c reflect.Value
-					if e.Type().IsVariadic() {
-						c = e.Call(anys[:len(anys)-1])[0]
-						c = e.Call(anys)[0]
-					} else {
-						c = e.Call(anys)[0]
-					}
-					ret := c.MethodByName("Return")
-					var vals []reflect.Value
-					for j := 0; j < ret.Type().NumIn(); j++ {
-						vals = append(vals, enc(ret.Type().In(j), m.rets[j]))
-					}
-					ret.Call(vals)
+					extra := *m
+					extra.ran = 0
+					registerTestify(job, mock, &extra, 1+k%2, maxUID, E, "late expectation")
 				}
 			}(g)
 		}
@@ -817,6 +931,11 @@ func stressTestify(job Job, mk func() any, res *Result, E *errs) {
 	wg.Wait()
 	if len(base.Calls) != int(calls) {
 		E.add("%s: %d calls were made, the embedded mock recorded %d", job.Mock, calls, len(base.Calls))
+	}
+	for _, m := range ms {
+		if m.kind != 0 && m.ran != m.calls {
+			E.add("%s: %s was called %d times, its typed handler ran %d times", job.Mock, m.name, m.calls, m.ran)
+		}
 	}
 	res.Calls += int(calls)
 }
@@ -834,7 +953,7 @@ func main() {
 			fmt.Fprintln(os.Stderr, "unknown mock:", j.Mock)
 			os.Exit(2)
 		}
-		res := Result{Mock: j.Mock, Errors: []string{}}
+		res := Result{Mock: j.Mock, Errors: []string{}, Skipped: []string{}}
 		E := &errs{}
 		func() {
 			defer func() {
